@@ -883,7 +883,7 @@ func Run(c *core.Ctx) int {
 			total += len(in)
 			for _, e := range in {
 				// quick tier: the date-time / time edits on every derived base, a regular sample of the others
-				if c.Thorough() || (typedKind(e.Kind) && e.Kind != "trailing-zero") {
+				if (typedKind(e.Kind) && e.Kind != "trailing-zero") {
 					jobs = append(jobs, job{b: b, e: e})
 				} else {
 					derivedJobs = append(derivedJobs, job{b: b, e: e})
@@ -904,7 +904,7 @@ func Run(c *core.Ctx) int {
 		}
 	}
 	c.Count("edits:enumerated", int64(total))
-	for i, step := 0, len(derivedJobs)/c.Pick(3000, 1<<30)+1; i < len(derivedJobs); i += step {
+	for i, step := 0, len(derivedJobs)/c.Pick(3000, 40000)+1; i < len(derivedJobs); i += step {
 		jobs = append(jobs, derivedJobs[i])
 	}
 	if !c.Thorough() {
